@@ -6,8 +6,10 @@ import (
 	"bytes"
 	"context"
 	"crypto/ecdh"
+	"crypto/ed25519"
 	"crypto/rand"
 	"crypto/x509"
+	"encoding/base64"
 	"strings"
 	"fmt"
 	mathrand "math/rand"
@@ -23,6 +25,7 @@ import (
 	"github.com/hashicorp/nodeenrollment/registration"
 	"github.com/hashicorp/nodeenrollment/rotation"
 	"github.com/hashicorp/nodeenrollment/storage/inmem"
+	nodetls "github.com/hashicorp/nodeenrollment/tls"
 	"github.com/hashicorp/nodeenrollment/types"
 	"google.golang.org/protobuf/proto"
 	"google.golang.org/protobuf/types/known/structpb"
@@ -57,6 +60,8 @@ func TestRaceStress(t *testing.T) {
 			raceRotation(t, rng)
 		case "C04":
 			raceEnroll(t, rng)
+		case "C05":
+			raceServerCerts(t, rng)
 		default:
 			t.Fatalf("no race stress for %s", prop)
 		}
@@ -635,6 +640,107 @@ func raceEnroll(t *testing.T, rng *mathrand.Rand) {
 					pk, _ := x509.MarshalPKIXPublicKey(cert.PublicKey)
 					if !bytes.Equal(pk, c.CertificatePublicKeyPkix) || cert.Subject.CommonName != want {
 						bad("the node's certificate is named %q / holds another key; the node's key ID is %q", cert.Subject.CommonName, want)
+					}
+				}
+			}
+		}()
+	}
+	close(start)
+	wg.Wait()
+}
+
+// raceServerCerts (C05, auxiliary): the server mints certificates for many authentication requests at once - one
+// goroutine per connection - for DIFFERENT registered nodes, honest requests mixed with requests that must be refused (the
+// nonce signed by another registered node's key, a client state signed by another node's key, a bit-flipped signature).
+// Facts that load cannot disturb: an honest request is served, the minted leaf carries that request's nonce and the
+// returned client state is that request's; a request without a valid signature by the claimed key's record is refused.
+func raceServerCerts(t *testing.T, rng *mathrand.Rand) {
+	ctx := context.Background()
+	st, _ := inmem.New(ctx)
+	if _, err := rotation.RotateRootCertificates(ctx, st); err != nil {
+		t.Fatal(err)
+	}
+	n := 3 + rng.Intn(4)
+	ids := make([]*Ident, n)
+	for i := range ids {
+		ids[i] = NewIdent(fmt.Sprintf("n%d", i))
+		c := ids[i].Creds()
+		req, err := c.CreateFetchNodeCredentialsRequest(ctx)
+		if err != nil {
+			t.Fatal(err)
+		}
+		if _, err := registration.AuthorizeNode(ctx, st, req); err != nil {
+			t.Fatal(err)
+		}
+	}
+	bad := func(format string, a ...any) {
+		fmt.Printf("SERVERCERTS-VIOLATION "+format+"\n", a...)
+		t.Fail()
+	}
+	var wg sync.WaitGroup
+	start := make(chan struct{})
+	g := 8 + rng.Intn(16)
+	for k := 0; k < g; k++ {
+		wg.Add(1)
+		r2 := mathrand.New(mathrand.NewSource(rng.Int63()))
+		k := k
+		go func() {
+			defer wg.Done()
+			<-start
+			for j := 0; j < 12; j++ {
+				me, other := ids[r2.Intn(n)], ids[r2.Intn(n)]
+				nonce := make([]byte, nodeenrollment.NonceSize)
+				r2.Read(nonce)
+				s, _ := structpb.NewStruct(map[string]any{"k": float64(k), "j": float64(j)})
+				stateBytes, _ := proto.Marshal(s)
+				req := &types.GenerateServerCertificatesRequest{CertificatePublicKeyPkix: me.Pkix, Nonce: nonce, ClientState: stateBytes}
+				kind := r2.Intn(4)
+				if other == me && (kind == 1 || kind == 2) {
+					kind = 0
+				}
+				nonceKey, stateKey := me.Priv, me.Priv
+				switch kind {
+				case 1:
+					nonceKey = other.Priv
+				case 2:
+					stateKey = other.Priv
+				}
+				req.NonceSignature = ed25519.Sign(nonceKey, nonce)
+				req.ClientStateSignature = ed25519.Sign(stateKey, stateBytes)
+				if kind == 3 {
+					req.NonceSignature[r2.Intn(len(req.NonceSignature))] ^= 1 << uint(r2.Intn(8))
+				}
+				resp, err := nodetls.GenerateServerCertificates(ctx, st, req)
+				if kind != 0 {
+					if err == nil {
+						bad("certificates minted under parallel use for a request of kind %d (1 nonce signed by another node, 2 state signed by another node, 3 damaged signature)", kind)
+					}
+					continue
+				}
+				if err != nil {
+					bad("an honest request of a registered node was refused while others were served: %v", err)
+					continue
+				}
+				if !proto.Equal(resp.ClientState, s) {
+					bad("the client state returned is not the one this request carried: %v, sent %v", resp.ClientState, s)
+				}
+				if len(resp.CertificateBundles) == 0 {
+					bad("no certificates in the answer to an honest request")
+				}
+				for _, b := range resp.CertificateBundles {
+					c, perr := x509.ParseCertificate(b.CertificateDer)
+					if perr != nil {
+						bad("unparsable leaf: %v", perr)
+						continue
+					}
+					found := false
+					for _, d := range c.DNSNames {
+						if d == base64.RawStdEncoding.EncodeToString(nonce) {
+							found = true
+						}
+					}
+					if !found {
+						bad("the minted leaf does not carry this request's nonce")
 					}
 				}
 			}
